@@ -314,6 +314,181 @@ theorem mergeScopes_spec {outer cbSelf : List N} : ∀ (inner : List (List (MSym
       · refine ⟨x, ?_, hp⟩
         simp only [List.flatten_cons, List.mem_append]; right; right; exact hx
 
+/-! ### completeness: every input symbol survives the merge -/
+
+/-- `x` survives as an entry with a provenance, or it is an imported / unresolved duplicate that was
+dropped because an entry of that name denoting the same entity is already in the table -/
+def Survives (norm : N → N) (outer : List N) (l : List (MSym N)) (x : MSym N) : Prop :=
+  (∃ s' ∈ l, Prov norm outer x s') ∨
+    (x.kind = .shared ∧ ∃ s' ∈ l, s'.kind = .shared ∧ s'.name = x.name)
+
+theorem renameNm_complete {norm : N → N} {outer : List N} {old n : N} (hn : n ∉ outer) {l : List (MSym N)}
+    (hfree : ∀ s ∈ l, s.name = old → s.kind = .free ∧ ¬ mentioned norm s.cb s.name) :
+    ∀ x ∈ l, ∃ s' ∈ renameNm old n l, Prov norm outer x s' := by
+  induction l with
+  | nil => intro x hx; simp at hx
+  | cons s r ih =>
+    intro x hx
+    by_cases hs : s.name = old
+    · simp only [renameNm, if_pos hs]
+      rcases List.mem_cons.mp hx with rfl | hx
+      · exact ⟨{ x with name := n }, by simp, rfl, rfl, rfl,
+          Or.inr ⟨(hfree x (by simp) hs).1, (hfree x (by simp) hs).2, hn⟩⟩
+      · exact ⟨x, List.mem_cons_of_mem _ hx, Prov.refl _ _ _⟩
+    · simp only [renameNm, if_neg hs]
+      rcases List.mem_cons.mp hx with rfl | hx
+      · exact ⟨x, by simp, Prov.refl _ _ _⟩
+      · obtain ⟨s', hs', hp⟩ := ih (fun t ht => hfree t (List.mem_cons_of_mem _ ht)) x hx
+        exact ⟨s', List.mem_cons_of_mem _ hs', hp⟩
+
+theorem Survives.step {norm : N → N} {outer : List N} {l l' : List (MSym N)} {x : MSym N}
+    (h : Survives norm outer l x) (hstep : ∀ y ∈ l, ∃ s' ∈ l', Prov norm outer y s') :
+    Survives norm outer l' x := by
+  rcases h with ⟨s', hs', hp⟩ | ⟨hk, s', hs', hsk, hsn⟩
+  · obtain ⟨s'', hs'', hq⟩ := hstep s' hs'
+    exact Or.inl ⟨s'', hs'', hp.trans hq⟩
+  · obtain ⟨s'', hs'', hq⟩ := hstep s' hs'
+    refine Or.inr ⟨hk, s'', hs'', by rw [← hq.2.1]; exact hsk, ?_⟩
+    rcases hq.2.2.2 with h1 | ⟨h1, _⟩
+    · rw [h1]; exact hsn
+    · rw [hsk] at h1; cases h1
+
+include hfresh in
+theorem mergeOne_complete {outer cbSelf : List N} {st st' : MState N} {o : MSym N}
+    (hnd : (mnames st.self).Nodup) (hsub : CbSub cbSelf st.self)
+    (h : mergeOne fresh norm outer cbSelf st o = some st') :
+    (∀ x ∈ st.self, ∃ s' ∈ st'.self, Prov norm outer x s') ∧ Survives norm outer st'.self o := by
+  unfold mergeOne at h
+  split at h
+  · cases h
+    exact ⟨fun x hx => ⟨x, List.mem_append_left _ hx, Prov.refl _ _ _⟩,
+      Or.inl ⟨o, List.mem_append_right _ (List.mem_singleton.mpr rfl), Prov.refl _ _ _⟩⟩
+  · rename_i s hf
+    have hsmem : s ∈ st.self := List.mem_of_find?_eq_some hf
+    have hsn : s.name = o.name := by simpa using List.find?_some hf
+    split at h
+    · rename_i hk
+      cases h
+      exact ⟨fun x hx => ⟨x, hx, Prov.refl _ _ _⟩, Or.inr ⟨hk.2, s, hsmem, hk.1, hsn⟩⟩
+    · have hfr := hfresh (mnames st.self ++ outer ++ st.otherNames) o.name
+      simp only [List.mem_append, not_or] at hfr
+      split at h
+      · rename_i hk
+        cases h
+        refine ⟨fun x hx => ⟨x, List.mem_append_left _ hx, Prov.refl _ _ _⟩,
+          Or.inl ⟨{ o with name := fresh (mnames st.self ++ outer ++ st.otherNames) o.name },
+            List.mem_append_right _ (List.mem_singleton.mpr rfl), ?_⟩⟩
+        exact ⟨rfl, rfl, rfl, Or.inr ⟨hk.1, hk.2, hfr.1.2⟩⟩
+      · split at h
+        · rename_i hk
+          cases h
+          refine ⟨?_, Or.inl ⟨o, List.mem_append_right _ (List.mem_singleton.mpr rfl), Prov.refl _ _ _⟩⟩
+          intro x hx
+          obtain ⟨s', hs', hp⟩ := renameNm_complete (norm := norm) (outer := outer) (old := s.name) hfr.1.2 (by
+            intro t ht htn
+            rw [meq_of_name_eq hnd ht hsmem htn]
+            exact ⟨hk.1, not_mentioned_of_sub (hsub s hsmem) hk.2⟩) x hx
+          exact ⟨s', List.mem_append_left _ hs', hp⟩
+        · cases h
+
+include hfresh in
+theorem mergeGo_complete {outer cbSelf : List N} : ∀ (other : List (MSym N)) (st st' : MState N),
+    (mnames st.self).Nodup → CbSub cbSelf st.self → CbSub cbSelf other →
+    mergeGo fresh norm outer cbSelf other st = some st' →
+    (∀ x ∈ st.self, ∃ s' ∈ st'.self, Prov norm outer x s') ∧ ∀ x ∈ other, Survives norm outer st'.self x := by
+  intro other
+  induction other with
+  | nil =>
+    intro st st' _ _ _ h
+    simp only [mergeGo] at h; cases h
+    exact ⟨fun x hx => ⟨x, hx, Prov.refl _ _ _⟩, fun x hx => by simp at hx⟩
+  | cons o r ih =>
+    intro st st' hnd hs1 hs2 h
+    simp only [mergeGo] at h
+    split at h
+    · cases h
+    · rename_i st1 h1
+      have hnd1 := mergeOne_nodup fresh hfresh norm hnd h1
+      have hp1 := mergeOne_prov fresh hfresh norm hnd hs1 h1
+      obtain ⟨c1, c2⟩ := mergeOne_complete fresh hfresh norm hnd hs1 h1
+      have hsub1 : CbSub cbSelf st1.self := by
+        intro s' hs' c hc
+        rcases hp1 s' hs' with ⟨x, hx, hq⟩ | hq
+        · exact hs1 x hx c (by rw [hq.2.2.1]; exact hc)
+        · exact hs2 o (by simp) c (by rw [hq.2.2.1]; exact hc)
+      obtain ⟨i1, i2⟩ := ih st1 st' hnd1 hsub1 (fun s hs => hs2 s (List.mem_cons_of_mem _ hs)) h
+      refine ⟨?_, ?_⟩
+      · intro x hx
+        obtain ⟨s1, hs1m, hq⟩ := c1 x hx
+        obtain ⟨s2, hs2m, hq2⟩ := i1 s1 hs1m
+        exact ⟨s2, hs2m, hq.trans hq2⟩
+      · intro x hx
+        rcases List.mem_cons.mp hx with rfl | hx
+        · exact c2.step i1
+        · exact i2 x hx
+
+include hfresh in
+theorem mergeTable_complete {outer cbSelf : List N} {self other r : List (MSym N)} (hnd : (mnames self).Nodup)
+    (hs1 : CbSub cbSelf self) (hs2 : CbSub cbSelf other)
+    (h : mergeTable fresh norm outer cbSelf self other = some r) :
+    ∀ x ∈ self ++ other, Survives norm outer r x := by
+  unfold mergeTable at h
+  cases hg : mergeGo fresh norm outer cbSelf other { self := self, otherNames := mnames other } with
+  | none => simp [hg] at h
+  | some st' =>
+    simp [hg] at h; subst h
+    obtain ⟨c1, c2⟩ := mergeGo_complete fresh hfresh norm other _ st' hnd hs1 hs2 hg
+    intro x hx
+    rcases List.mem_append.mp hx with hx | hx
+    · exact Or.inl (c1 x hx)
+    · exact c2 x hx
+
+include hfresh in
+theorem mergeScopes_complete {outer cbSelf : List N} : ∀ (inner : List (List (MSym N))) (self r : List (MSym N)),
+    (mnames self).Nodup → CbSub cbSelf self → CbSub cbSelf inner.flatten →
+    mergeScopes fresh norm outer cbSelf self inner = some r →
+    (∀ x ∈ self, ∃ s' ∈ r, Prov norm outer x s') ∧ ∀ x ∈ inner.flatten, Survives norm outer r x := by
+  intro inner
+  induction inner with
+  | nil =>
+    intro self r _ _ _ h
+    simp only [mergeScopes] at h; cases h
+    exact ⟨fun x hx => ⟨x, hx, Prov.refl _ _ _⟩, fun x hx => by simp at hx⟩
+  | cons t ts ih =>
+    intro self r hnd hs1 hs2 h
+    simp only [mergeScopes] at h
+    split at h
+    · cases h
+    · rename_i self1 h1
+      have hst : CbSub cbSelf t := fun s hs => hs2 s (by simp [hs])
+      have hsts : CbSub cbSelf ts.flatten := fun s hs => hs2 s (by simp [hs])
+      obtain ⟨j1, j2⟩ := mergeTable_spec fresh hfresh norm hnd hs1 hst h1
+      have k1 := mergeTable_complete fresh hfresh norm hnd hs1 hst h1
+      have hsub1 : CbSub cbSelf self1 := by
+        intro s' hs' c hc
+        obtain ⟨x, hx, hq⟩ := j2 s' hs'
+        rcases List.mem_append.mp hx with hx | hx
+        · exact hs1 x hx c (by rw [hq.2.2.1]; exact hc)
+        · exact hst x hx c (by rw [hq.2.2.1]; exact hc)
+      obtain ⟨i1, i2⟩ := ih self1 r j1 hsub1 hsts h
+      refine ⟨?_, ?_⟩
+      · intro x hx
+        -- members of the receiving table are never dropped
+        unfold mergeTable at h1
+        cases hg : mergeGo fresh norm outer cbSelf t { self := self, otherNames := mnames t } with
+        | none => simp [hg] at h1
+        | some st' =>
+          simp [hg] at h1; subst h1
+          obtain ⟨c1, _⟩ := mergeGo_complete fresh hfresh norm t _ st' hnd hs1 hst hg
+          obtain ⟨s1, hs1m, hq⟩ := c1 x hx
+          obtain ⟨s2, hs2m, hq2⟩ := i1 s1 hs1m
+          exact ⟨s2, hs2m, hq.trans hq2⟩
+      · intro x hx
+        simp only [List.flatten_cons, List.mem_append] at hx
+        rcases hx with hx | hx
+        · exact (k1 x (by simp [hx])).step i1
+        · exact i2 x hx
+
 /-- with distinct names, a written name denotes the symbol object it was written for -/
 theorem resolve_of_nodup {l : List (MSym N)} (hnd : (mnames l).Nodup) {s : MSym N} (hs : s ∈ l) :
     resolve l s.name = some s.id := by
